@@ -708,9 +708,24 @@ pub fn run_replay(check: &dyn Check, path: &Path) -> i32 {
     let _ = std::fs::remove_dir_all(&workdir);
     if sh.violations.is_empty() {
         println!("no violation reproduced");
-        0
-    } else {
-        println!("VIOLATION property={} replay={}", check.id(), path.display());
-        1
+        return 0;
     }
+    let known = load_known_findings();
+    let mut unlisted = 0;
+    for v in sh.violations.iter() {
+        if let Some(k) = known.iter().find(|k| k.status == "known" && k.property == check.id() && k.signature == v.sig) {
+            println!("KNOWN-FINDING: property={} {} [signature {}]", check.id(), k.what, v.sig);
+        } else {
+            unlisted += 1;
+            println!("  signature: {}", v.sig);
+            for l in v.detail.lines().take(60) {
+                println!("  | {l}");
+            }
+        }
+    }
+    if unlisted == 0 {
+        return 0;
+    }
+    println!("VIOLATION property={} replay={}", check.id(), path.display());
+    1
 }
